@@ -12,7 +12,8 @@ Init == \E p \in ParamNames, q \in PartyNames, e \in EnvNames, usedParam \in BOO
            \* (case_twin_tx: a second transaction whose name differs from the first only in letter case, with parameters of its own;
            \*  two_withdrawals: two chain-specific blocks of one kind, each with names of its own; mixed_blocks: blocks of three kinds,
            \* not in alphabetical order)
-           extra \in {"none", "unused_param", "case_twin_param", "second_party", "policy_ctor", "two_withdrawals", "mixed_blocks", "case_twin_tx"} :
+           extra \in {"none", "unused_param", "case_twin_param", "second_party", "policy_ctor", "two_withdrawals", "mixed_blocks", "case_twin_tx",
+                      "long_script", "long_policy_script", "long_datum"} :
           c = [param |-> p, party |-> q, env |-> e, usedParam |-> usedParam, usedEnv |-> usedEnv, extra |-> extra,
                \* names the body of the transaction uses (party always; the case twin is used when present)
                nUsed |-> 1 + (IF usedParam THEN 1 ELSE 0) + (IF usedEnv THEN 1 ELSE 0)
